@@ -587,11 +587,116 @@ func (fr *Frame) keepOwnBoxes() func() {
 			boxes = append(boxes, kept{l, fr.load(l)})
 		}
 	}
+	type keptMap struct {
+		ref          Term
+		mt           *types.Map
+		dom, val, ln Term
+	}
+	var maps []keptMap
+	for f := fr; f != nil; f = f.parent {
+		var keys []string
+		for k := range f.ownMaps {
+			keys = append(keys, k)
+		}
+		sort.Strings(keys)
+		for _, k := range keys {
+			mt := f.ownMaps[k]
+			ref := T(k, SInt)
+			maps = append(maps, keptMap{ref, mt, fr.define("own.dom", fr.mapDom(ref, mt)), fr.define("own.val", fr.mapVals(ref, mt)), fr.define("own.len", fr.mapLen(ref, mt))})
+		}
+	}
 	return func() {
 		for _, k := range boxes {
 			fr.store(k.l, k.v)
 		}
+		for _, m := range maps {
+			ks, vs := fr.mapSorts(m.mt)
+			h := fr.R.Heap
+			dn, vn, ln := mapDomComp(m.mt), mapValComp(m.mt), mapLenComp(m.mt)
+			h.Set(fr.st, dn, fr.define("h", Store(h.Get(fr.st, dn, ArraySort(SInt, ArraySort(ks, SBool))), m.ref, m.dom)))
+			h.Set(fr.st, vn, fr.define("h", Store(h.Get(fr.st, vn, ArraySort(SInt, ArraySort(ks, vs))), m.ref, m.val)))
+			h.Set(fr.st, ln, fr.define("h", Store(h.Get(fr.st, ln, ArraySort(SInt, SInt)), m.ref, m.ln)))
+		}
 	}
+}
+
+// mapStaysLocal: the map made here can only be reached by the code of this function: its value flows only through
+// local variables that are themselves only loaded and stored (not captured, not address-taken), and is only indexed,
+// updated, ranged over, measured, deleted from or (in a function that is not inlined) returned. Code this function
+// calls can then neither read nor write it, so it survives the havoc of a call.
+func mapStaysLocal(mk *ssa.MakeMap, mayReturn bool) bool {
+	seen := map[ssa.Value]bool{}
+	cells := map[*ssa.Alloc]bool{}
+	var ok func(v ssa.Value) bool
+	var cellOK func(a *ssa.Alloc) bool
+	cellOK = func(a *ssa.Alloc) bool {
+		if cells[a] {
+			return true
+		}
+		cells[a] = true
+		refs := a.Referrers()
+		if refs == nil {
+			return false
+		}
+		for _, u := range *refs {
+			switch u := u.(type) {
+			case *ssa.DebugRef:
+			case *ssa.Store:
+				if u.Addr != ssa.Value(a) {
+					return false // the cell's address is stored somewhere
+				}
+			case *ssa.UnOp:
+				if u.Op != token.MUL || !ok(u) {
+					return false
+				}
+			default:
+				return false
+			}
+		}
+		return true
+	}
+	ok = func(v ssa.Value) bool {
+		if seen[v] {
+			return true
+		}
+		seen[v] = true
+		refs := v.Referrers()
+		if refs == nil {
+			return false
+		}
+		for _, u := range *refs {
+			switch u := u.(type) {
+			case *ssa.DebugRef:
+			case *ssa.MapUpdate:
+				if u.Map != v || u.Key == v || u.Value == v {
+					return false
+				}
+			case *ssa.Lookup:
+				if u.X != v {
+					return false
+				}
+			case *ssa.Range:
+			case *ssa.Call:
+				b, isB := u.Call.Value.(*ssa.Builtin)
+				if !isB || (b.Name() != "len" && b.Name() != "delete" && b.Name() != "clear") {
+					return false
+				}
+			case *ssa.Store:
+				a, isA := u.Addr.(*ssa.Alloc)
+				if !isA || u.Val != v || !cellOK(a) {
+					return false
+				}
+			case *ssa.Return:
+				if !mayReturn {
+					return false
+				}
+			default:
+				return false
+			}
+		}
+		return true
+	}
+	return ok(mk)
 }
 
 func (fr *Frame) havocAllHeap() {
